@@ -133,6 +133,23 @@ fn table() -> Table {
     ] {
         add("dateTime.ill", xsd(l, "dateTime"));
     }
+    // the ends of chrono's range (NaiveDate::MIN = -262143-01-01, MAX = 262142-12-31): `naive_to_fixed(d, ±14)` overflows
+    // within 14 h of them, a timezoned value must have a representable UTC instant, 24:00:00 must have a next day
+    for l in [
+        "-262143-01-01T00:00:00", "-262143-01-01T13:59:59.999999999", "-262143-01-01T14:00:00", "-262143-01-02T00:00:00",
+        "-262143-01-01T00:00:00Z", "-262143-01-01T00:00:00-14:00", "-262143-01-01T10:00:00+10:00", "-262143-01-01T05:00:00Z",
+        "262142-12-31T23:59:59.999999999", "262142-12-31T10:00:00", "262142-12-31T09:59:59.999999999", "262142-12-30T12:00:00",
+        "262142-12-31T23:59:59Z", "262142-12-31T23:59:59+14:00", "262142-12-31T20:00:00-03:59", "262142-12-31T23:30:00Z",
+        "-262000-06-15T12:00:00Z", "262000-06-15T12:00:00", "-100000-01-01T00:00:00", "100000-01-01T00:00:00Z",
+    ] {
+        add("dateTime.edge", xsd(l, "dateTime"));
+    }
+    for l in [
+        "-262144-12-31T23:59:59", "262143-01-01T00:00:00", "262142-12-31T24:00:00", "-262143-01-01T00:00:00+00:01",
+        "262142-12-31T23:59:59-00:01", "-262144-01-01T00:00:00Z", "2147483647-01-01T00:00:00", "-2147483648-01-01T00:00:00Z",
+    ] {
+        add("dateTime.edgeill", xsd(l, "dateTime"));
+    }
     for (l, d) in [
         ("9", "http://ex.org/dt"), ("10", "http://ex.org/dt"), ("2024-01-01", "http://www.w3.org/2001/XMLSchema#date"),
         ("9", "http://www.w3.org/2001/XMLSchema#foo"), ("x", "http://www.w3.org/2001/XMLSchema#anyURI"),
@@ -147,12 +164,28 @@ fn table() -> Table {
     for b in ["b9", "b10", "a", "zz", "0"] {
         add("bnode", T::Bnode(b.to_string()));
     }
+    // quoted triples (Term::cmp compares them component-wise; they have no value and no kind rank in the property)
+    let ir = |s: &str| T::Iri(s.to_string());
+    for (a, b, c) in [
+        (ir("x:a"), ir("x:p"), xsd("9", "integer")), (ir("x:a"), ir("x:p"), xsd("10", "integer")),
+        (ir("x:a"), ir("x:q"), xsd("1", "integer")), (ir("x:b"), ir("x:p"), ir("x:a")),
+        (T::Bnode("b1".into()), ir("x:p"), T::Lang("a".into(), "en".into())),
+    ] {
+        add("triple", T::Triple(Box::new([a, b, c])));
+    }
+    add("triple", T::Triple(Box::new([
+        T::Triple(Box::new([ir("x:a"), ir("x:p"), xsd("9", "integer")])), ir("x:p"), ir("x:a"),
+    ])));
     Table { v }
 }
 
 impl Table {
     fn class(&self, c: &str) -> Vec<T> {
         self.v.iter().filter(|(k, _)| k.starts_with(c)).map(|(_, t)| t.clone()).collect()
+    }
+    /// exactly the classes named (no prefix matching)
+    fn exact(&self, cs: &[&str]) -> Vec<T> {
+        self.v.iter().filter(|(k, _)| cs.contains(k)).map(|(_, t)| t.clone()).collect()
     }
     fn all(&self) -> Vec<T> {
         self.v.iter().map(|(_, t)| t.clone()).collect()
@@ -201,14 +234,7 @@ fn random_value(r: &mut Rng, tab: &Table) -> T {
             }
             xsd(&s, *r.pick(&["decimal", "integer", "double"]))
         }
-        5 => {
-            let s = format!(
-                "20{:02}-{:02}-{:02}T{:02}:{:02}:{:02}{}",
-                r.range(20, 25), r.range(1, 12), r.range(1, 28), r.below(24), r.below(60), r.below(60),
-                r.pick(&["", "", "Z", "+14:00", "-14:00", "+05:30", "-08:00", ".5", ".25Z"])
-            );
-            xsd(&s, "dateTime")
-        }
+        5 => random_date_time(r),
         6 => {
             let l: String = (0..r.below(3)).map(|_| *r.pick(&['a', 'b', 'A', '9', '1', '0', 'é'])).collect();
             match r.below(3) {
@@ -224,6 +250,29 @@ fn random_value(r: &mut Rng, tab: &Table) -> T {
         }
         _ => tab.v[r.below(tab.v.len())].1.clone(),
     }
+}
+
+/// a dateTime anywhere in (and slightly beyond) chrono's range: recent years, year 0 / negative years, 5-6 digit years,
+/// and the last/first days of the range where ±14:00 overflows
+fn random_date_time(r: &mut Rng) -> T {
+    let tz = *r.pick(&["", "", "", "Z", "Z", "+14:00", "-14:00", "+05:30", "-08:00", "+00:01", "-13:59"]);
+    let frac = *r.pick(&["", "", "", ".5", ".25", ".999999999", ".0000000001"]);
+    let (year, month, day): (i64, usize, usize) = match r.below(8) {
+        0..=2 => (2020 + r.below(6) as i64, r.range(1, 12), r.range(1, 28)),
+        3 => (r.below(3) as i64 - 1, r.range(1, 12), r.range(1, 28)),
+        4 => (*r.pick(&[-1i64, 1]) * r.range(9990, 262142) as i64, r.range(1, 12), r.range(1, 31)),
+        5 => (-262143, 1, r.range(1, 2)),
+        6 => (262142, 12, r.range(30, 31)),
+        _ => (*r.pick(&[-262144i64, -262143, 262142, 262143, 2147483647, 2147483648]), *r.pick(&[1, 12]), *r.pick(&[1, 31])),
+    };
+    let (h, mi, sec) = match r.below(6) {
+        0 => (24, 0, 0),
+        1 => (*r.pick(&[9, 10, 13, 14]), *r.pick(&[0, 59]), *r.pick(&[0, 59])),
+        _ => (r.below(24), r.below(60), r.below(60)),
+    };
+    let frac = if h == 24 { "" } else { frac };
+    let ys = if year < 0 { format!("-{:04}", -year) } else { format!("{:04}", year) };
+    xsd(&format!("{}-{:02}-{:02}T{:02}:{:02}:{:02}{}{}", ys, month, day, h, mi, sec, frac, tz), "dateTime")
 }
 
 // ------------------------------------------------------------------ generator
@@ -389,11 +438,32 @@ fn build(rows: &[Row], copies: bool) -> LightDataset {
     ds
 }
 
+/// what the ORDER BY key is: the stored term itself (`EvalResult::Term`), a computed value (`EvalResult::Value`), a
+/// BIND-produced term (a `ResultTerm` built by `value_to_term` with a pre-computed value), or `STR(..)`
+#[derive(Clone, Copy, PartialEq)]
+enum KeyMode {
+    Var,
+    Plus0,
+    BindMul1,
+    Str,
+}
+
 fn branch(subj: &str, row: &Row) -> String {
+    branch_m(subj, row, KeyMode::Var)
+}
+
+fn branch_m(subj: &str, row: &Row, mode: KeyMode) -> String {
     let mut s = format!("{{ <x:{}> <x:q> ?r . ", subj);
     for (k, cell) in row.iter().enumerate() {
         if cell.is_some() {
             s.push_str(&format!("<x:{}> <x:p{}> ?k{} . ", subj, k, k));
+        }
+    }
+    if mode == KeyMode::BindMul1 {
+        for (k, cell) in row.iter().enumerate() {
+            if cell.is_some() {
+                s.push_str(&format!("BIND(?k{} * 1 AS ?b{}) ", k, k));
+            }
         }
     }
     s.push('}');
@@ -401,9 +471,19 @@ fn branch(subj: &str, row: &Row) -> String {
 }
 
 fn order_clause(dirs: &[bool]) -> String {
+    order_clause_m(dirs, KeyMode::Var)
+}
+
+fn order_clause_m(dirs: &[bool], mode: KeyMode) -> String {
     let mut s = String::from("ORDER BY");
     for (k, d) in dirs.iter().enumerate() {
-        s.push_str(&format!(" {}(?k{})", if *d { "DESC" } else { "ASC" }, k));
+        let key = match mode {
+            KeyMode::Var => format!("?k{}", k),
+            KeyMode::Plus0 => format!("?k{} + 0", k),
+            KeyMode::BindMul1 => format!("?b{}", k),
+            KeyMode::Str => format!("STR(?k{})", k),
+        };
+        s.push_str(&format!(" {}({})", if *d { "DESC" } else { "ASC" }, key));
     }
     s
 }
@@ -444,6 +524,7 @@ struct Obs<'a> {
     ds: &'a LightDataset,
     rows: &'a [Row],
     dirs: Vec<bool>,
+    mode: KeyMode,
     fails: Vec<String>,
 }
 
@@ -452,12 +533,12 @@ impl Obs<'_> {
     fn pair(&mut self, x: (&str, usize), y: (&str, usize)) -> char {
         let sx = format!("{}{}", x.0, x.1);
         let sy = format!("{}{}", y.0, y.1);
-        let br = [branch(&sy, &self.rows[y.1]), branch(&sx, &self.rows[x.1])];
+        let br = [branch_m(&sy, &self.rows[y.1], self.mode), branch_m(&sx, &self.rows[x.1], self.mode)];
         let nkeys = self.dirs.len();
         let flipped: Vec<bool> = self.dirs.iter().map(|d| !d).collect();
         let mut sw = [false, false];
         for (i, d) in [self.dirs.clone(), flipped].iter().enumerate() {
-            match run(self.ds, &br, nkeys, &order_clause(d)) {
+            match run(self.ds, &br, nkeys, &order_clause_m(d, self.mode)) {
                 Ok(out) => {
                     if out == [sy.clone(), sx.clone()] {
                         sw[i] = false;
@@ -497,6 +578,10 @@ fn le(c: char) -> bool {
 
 /// laws on an observed matrix; pushes FAIL.* (first witness + count)
 fn matrix_laws(m: &[Vec<char>], fails: &mut Vec<String>) -> bool {
+    matrix_laws_sel(m, fails, true)
+}
+
+fn matrix_laws_sel(m: &[Vec<char>], fails: &mut Vec<String>, triples: bool) -> bool {
     let n = m.len();
     let mut ok = true;
     let mut refl = vec![];
@@ -517,7 +602,7 @@ fn matrix_laws(m: &[Vec<char>], fails: &mut Vec<String>) -> bool {
     }
     let mut cyc = vec![];
     let mut tr = vec![];
-    for i in 0..n {
+    for i in 0..(if triples { n } else { 0 }) {
         for j in 0..n {
             for k in 0..n {
                 if i == j || j == k || i == k {
@@ -594,7 +679,7 @@ fn perm_str(out: &[String]) -> String {
 fn exec_matrix(rows: &[Row], dirs: Vec<bool>, with_probes: bool) -> String {
     let n = rows.len();
     let ds = build(rows, true);
-    let mut obs = Obs { ds: &ds, rows, dirs: dirs.clone(), fails: vec![] };
+    let mut obs = Obs { ds: &ds, rows, dirs: dirs.clone(), mode: KeyMode::Var, fails: vec![] };
     let mut m = vec![vec!['?'; n]; n];
     for i in 0..n {
         for j in 0..n {
@@ -626,8 +711,9 @@ fn exec_matrix(rows: &[Row], dirs: Vec<bool>, with_probes: bool) -> String {
     if with_probes {
         let ts: Vec<T> = rows.iter().map(|r| r[0].clone().unwrap()).collect();
         let (hv, vc) = probes(&ts);
-        // where the values are comparable (SPARQL's `<`, `=`, `>`), the outcome ORDER BY used
-        let mv: String = vc.chars().zip(ms.chars()).map(|(v, o)| if matches!(v, 'l' | 'e' | 'g') { o } else { '.' }).collect();
+        // where SPARQL's `<` / `>` holds between the two values, the outcome ORDER BY used (the property does not say how
+        // values that are `=` are arranged: those cells are compared with the model only, through `m=`)
+        let mv: String = vc.chars().zip(ms.chars()).map(|(v, o)| if matches!(v, 'l' | 'g') { o } else { '.' }).collect();
         out += &format!(" hv={} vc={} mv={}", hv, vc, mv);
     }
     // full sorts of all rows, every input order (n = 3) or the two extreme ones
@@ -699,7 +785,7 @@ fn exec_sort(desc: bool, ts: &[T]) -> String {
             } else {
                 out += " perm=1";
                 // adjacent rows must not be strictly out of order (observed by two-row sorts)
-                let mut obs = Obs { ds: &ds, rows: &rows, dirs: vec![desc], fails: vec![] };
+                let mut obs = Obs { ds: &ds, rows: &rows, dirs: vec![desc], mode: KeyMode::Var, fails: vec![] };
                 let mut bad = vec![];
                 for w in o.windows(2) {
                     let (i, j): (usize, usize) = (w[0][1..].parse().unwrap(), w[1][1..].parse().unwrap());
@@ -744,6 +830,141 @@ fn exec_sort(desc: bool, ts: &[T]) -> String {
     out
 }
 
+/// X requests: one key that is NOT a plain variable.  The outcome matrix is observed as for T requests; the oracle
+/// (`o.xv` of the model) is the order SPARQL's `<` gives the key values: rows whose key expression is an error are
+/// unbound (first, all equal), numbers by value (NaN cells masked: unspecified), STR(..) by code-point order.
+fn exec_x(mode: KeyMode, ts: &[T]) -> String {
+    let n = ts.len();
+    let rows: Vec<Row> = ts.iter().map(|t| vec![Some(t.clone())]).collect();
+    let ds = build(&rows, true);
+    let mut obs = Obs { ds: &ds, rows: &rows, dirs: vec![false], mode, fails: vec![] };
+    let mut m = vec![vec!['?'; n]; n];
+    for i in 0..n {
+        for j in 0..n {
+            m[i][j] = if i == j { obs.pair(("s", i), ("t", i)) } else { obs.pair(("s", i), ("s", j)) };
+        }
+    }
+    let mut fails = std::mem::take(&mut obs.fails);
+    matrix_laws_sel(&m, &mut fails, false);
+    let rts: Vec<ResultTerm> = ts.iter().map(|t| ResultTerm::from(ArcTerm::from_term(to_simple(t)))).collect();
+    let numeric: Vec<bool> = rts
+        .iter()
+        .map(|r| catch(std::panic::AssertUnwindSafe(|| r.value().map(|v| format!("{:?}", v).starts_with("Number(")).unwrap_or(false))).unwrap_or(false))
+        .collect();
+    let mut xv = String::new();
+    for i in 0..n {
+        for j in 0..n {
+            let unspecified = mode != KeyMode::Str
+                && numeric[i]
+                && numeric[j]
+                && catch(std::panic::AssertUnwindSafe(|| match (rts[i].value(), rts[j].value()) {
+                    (Some(x), Some(y)) => x.partial_cmp(y).is_none(),
+                    _ => false,
+                }))
+                .unwrap_or(false);
+            xv.push(if unspecified { '.' } else { m[i][j] });
+        }
+    }
+    let ms: String = m.iter().flat_map(|r| r.iter()).collect();
+    let mut out = format!("n={} xm={} xv={}", n, ms, xv);
+    fails.sort();
+    fails.dedup();
+    for f in fails {
+        out.push(' ');
+        out.push_str(&f);
+    }
+    out
+}
+
+/// M requests: one sort of many rows with several keys, unbound cells, ASC/DESC and optionally LIMIT/OFFSET.  Every key
+/// column is drawn from ONE comparison class (the generator's clean pools), where the comparator is proved to be a total
+/// preorder (`sorted_perm`): the output must be a permutation, sorted (adjacent and sampled pairs, observed by two-row
+/// sorts), reproducible, and a slice of it must agree with the full result up to ties.
+fn exec_multi(dirs: Vec<bool>, rows: &[Row], slice: Option<(usize, usize)>) -> String {
+    let n = rows.len();
+    let ds = build(rows, false);
+    let br: Vec<String> = (0..n).map(|i| branch(&format!("s{}", i), &rows[i])).collect();
+    let oc = order_clause(&dirs);
+    let mut fails: Vec<String> = vec![];
+    let mut out = format!("n={}", n);
+    let parse_idx = |o: &[String]| -> Option<Vec<usize>> { o.iter().map(|s| s.strip_prefix('s').and_then(|x| x.parse().ok())).collect() };
+    match run(&ds, &br, dirs.len(), &oc) {
+        Err(e) => fails.push(format!("FAIL.{}={}", if e.starts_with("panic") { "panic" } else { "error" }, hex(&e))),
+        Ok(o) => {
+            let idx = parse_idx(&o).unwrap_or_default();
+            let mut sorted = idx.clone();
+            sorted.sort();
+            if sorted != (0..n).collect::<Vec<_>>() {
+                fails.push(format!("FAIL.perm={}", o.len()));
+            } else {
+                out += " perm=1";
+                if run(&ds, &br, dirs.len(), &oc).ok().as_ref() != Some(&o) {
+                    fails.push("FAIL.unstable=1".into());
+                }
+                let mut obs = Obs { ds: &ds, rows, dirs: dirs.clone(), mode: KeyMode::Var, fails: vec![] };
+                let mut bad = vec![];
+                for w in idx.windows(2) {
+                    // cmp(second, first) must not be Less
+                    if obs.pair(("s", w[1]), ("s", w[0])) == 'l' {
+                        bad.push(format!("{},{}", w[0], w[1]));
+                    }
+                }
+                if !bad.is_empty() {
+                    fails.push(format!("FAIL.unsorted={}:{}", bad.len(), bad[0]));
+                }
+                let mut far = vec![];
+                let mut st: u64 = 0x9E3779B97F4A7C15 ^ (n as u64);
+                for _ in 0..n.min(60) {
+                    st = st.wrapping_mul(6364136223846793005).wrapping_add(1442695040888963407);
+                    let a = (st >> 33) as usize % n;
+                    st = st.wrapping_mul(6364136223846793005).wrapping_add(1442695040888963407);
+                    let b = (st >> 33) as usize % n;
+                    let (a, b) = (a.min(b), a.max(b));
+                    if b - a < 2 {
+                        continue;
+                    }
+                    if obs.pair(("s", idx[b]), ("s", idx[a])) == 'l' {
+                        far.push(format!("{},{}", idx[a], idx[b]));
+                    }
+                }
+                if !far.is_empty() {
+                    fails.push(format!("FAIL.misordered={}:{}", far.len(), far[0]));
+                }
+                if let Some((limit, offset)) = slice {
+                    match run(&ds, &br, dirs.len(), &format!("{} LIMIT {} OFFSET {}", oc, limit, offset)) {
+                        Err(e) => fails.push(format!("FAIL.{}={}", if e.starts_with("panic") { "panic" } else { "error" }, hex(&e))),
+                        Ok(l) => {
+                            let want = limit.min(n.saturating_sub(offset));
+                            match parse_idx(&l) {
+                                Some(li) if li.len() == want => {
+                                    for (p, &r) in li.iter().enumerate() {
+                                        let full = idx[offset + p];
+                                        // the same row, or one that ties with it (a slice may break ties differently)
+                                        if r != full && (r >= n || obs.pair(("s", r), ("s", full)) != 'e') {
+                                            fails.push(format!("FAIL.slice=pos{}:{}vs{}", p, r, full));
+                                            break;
+                                        }
+                                    }
+                                    out += " slice=1";
+                                }
+                                _ => fails.push(format!("FAIL.slice=len{}want{}", l.len(), want)),
+                            }
+                        }
+                    }
+                }
+                fails.append(&mut obs.fails);
+            }
+        }
+    }
+    fails.sort();
+    fails.dedup();
+    for f in fails {
+        out.push(' ');
+        out.push_str(&f);
+    }
+    out
+}
+
 pub fn exec(line: &str) -> String {
     let mut toks = line.split_whitespace().peekable();
     match toks.next() {
@@ -770,6 +991,38 @@ pub fn exec(line: &str) -> String {
                 rows.push(r);
             }
             exec_matrix(&rows, dirs.chars().map(|c| c == 'D').collect(), false)
+        }
+        Some("X") => {
+            let mode = match toks.next() {
+                Some("P") => KeyMode::Plus0,
+                Some("B") => KeyMode::BindMul1,
+                Some("S") => KeyMode::Str,
+                _ => return "bad-op".into(),
+            };
+            let Some(n) = toks.next().and_then(|s| s.parse::<usize>().ok()) else { return "bad-op".into() };
+            let Some(cells) = parse_cells(&mut toks, n) else { return "bad-hex".into() };
+            let ts: Vec<T> = cells.into_iter().flatten().collect();
+            if ts.len() != n || n < 2 {
+                return "bad-op".into();
+            }
+            exec_x(mode, &ts)
+        }
+        Some("M") => {
+            let Some(dirs) = toks.next() else { return "bad-op".into() };
+            let (Some(nr), Some(nk)) = (toks.next().and_then(|s| s.parse::<usize>().ok()), toks.next().and_then(|s| s.parse::<usize>().ok())) else {
+                return "bad-op".into();
+            };
+            let (Some(lim), Some(off)) = (toks.next(), toks.next().and_then(|s| s.parse::<usize>().ok())) else { return "bad-op".into() };
+            let slice = if lim == "-" { None } else { match lim.parse::<usize>() { Ok(l) => Some((l, off)), Err(_) => return "bad-op".into() } };
+            if dirs.len() != nk || nk == 0 || nr < 2 || !dirs.chars().all(|c| c == 'A' || c == 'D') {
+                return "bad-op".into();
+            }
+            let mut rows = vec![];
+            for _ in 0..nr {
+                let Some(r) = parse_cells(&mut toks, nk) else { return "bad-hex".into() };
+                rows.push(r);
+            }
+            exec_multi(dirs.chars().map(|c| c == 'D').collect(), &rows, slice)
         }
         Some("S") => {
             let desc = match toks.next() {
